@@ -355,6 +355,7 @@ func ruleDequeResize(c *Ctx, r *R) {
 	}
 	var lenCall, storeA ssa.Instruction
 	var frontV, backV ssa.Value
+	staged := map[*ssa.Alloc]map[string]ssa.Value{}
 	copies := 0
 	for _, di := range deepInstrs(rs, 2) {
 		if call, ok := di.in.(*ssa.Call); ok && len(di.calls) > 0 {
@@ -373,6 +374,26 @@ func ruleDequeResize(c *Ctx, r *R) {
 				copies++
 			}
 		case *ssa.Store:
+			// a replacement deque built in a local and swapped in at the end (resized := Deque[T]{...}; ...; *d = resized): the
+			// stores into the local are staged, the whole-struct store is the replacement
+			if fa, ok := x.Addr.(*ssa.FieldAddr); ok {
+				if al, isLocal := fa.X.(*ssa.Alloc); isLocal && isNamedTypeDeep(al.Type(), "container/deque", "Deque") {
+					if staged[al] == nil {
+						staged[al] = map[string]ssa.Value{}
+					}
+					staged[al][fieldName(fa.X.Type(), fa.Field)] = x.Val
+					return
+				}
+			}
+			if x.Addr == ssa.Value(rs.Params[0]) {
+				if ld, ok := x.Val.(*ssa.UnOp); ok && ld.Op == token.MUL {
+					if al, ok := ld.X.(*ssa.Alloc); ok && staged[al] != nil {
+						storeA = x
+						frontV, backV = staged[al]["front"], staged[al]["back"]
+					}
+				}
+				return
+			}
 			if _, f, ok := storedField(x.Addr); ok {
 				switch f {
 				case "a":
@@ -515,6 +536,43 @@ func ruleDequeExpandFloor(c *Ctx, r *R) {
 					}
 				}
 			}
+		}
+		if phi, ok := arg.(*ssa.Phi); ok && !pos {
+			// newCap := len(d.a)*2; if newCap < minSize { newCap = minSize }: every way into the merge carries a value >= 1
+			all := len(phi.Edges) > 0
+			for k, e := range phi.Edges {
+				if kc, ok := e.(*ssa.Const); ok && kc.Value != nil && kc.Int64() >= 1 {
+					continue
+				}
+				pb := phi.Block().Preds[k]
+				okEdge := false
+				gs := guardsOf(pb)
+				if iff, isIf := pb.Instrs[len(pb.Instrs)-1].(*ssa.If); isIf {
+					gs = append(gs, guard{cond: iff.Cond, val: pb.Succs[0] == phi.Block(), blk: pb})
+				}
+				for _, g := range gs {
+					cf, ok := g.asCmp()
+					if !ok {
+						continue
+					}
+					x, y, op := cf.x, cf.y, cf.op
+					if y == e {
+						x, y, op = y, x, flip(op)
+					}
+					if x != e {
+						continue
+					}
+					if kc, ok := resolveVal(y).(*ssa.Const); ok && kc.Value != nil {
+						if (op == token.GEQ && kc.Int64() >= 1) || (op == token.GTR && kc.Int64() >= 0) {
+							okEdge = true
+						}
+					}
+				}
+				if !okEdge {
+					all = false
+				}
+			}
+			pos = all
 		}
 		if !pos {
 			good = false
